@@ -39,6 +39,7 @@ type Ctx struct {
 	Dump   string
 
 	fieldOwner map[*types.Var]string
+	eff        *Effects
 
 	modFuncs   []*ssa.Function // all functions (incl. anonymous, methods) of module packages, tests excluded
 	depFuncs   []*ssa.Function // same for runewidth/uniseg
